@@ -2,6 +2,7 @@
 
 from __future__ import annotations
 
+import builtins
 from typing import TYPE_CHECKING, cast
 
 import sympy
@@ -113,8 +114,9 @@ def sympy_to_python_fn(
     unique_args: list[str] = []
     for i in args:
         name, n = i, 1
-        # would shadow the module the printed expression refers to
-        shadows_module = i in ("math", "scipy")
+        # would shadow the module / builtin (max, min, abs, ...) that the printed
+        # expression refers to
+        shadows_module = i in ("math", "scipy") or hasattr(builtins, i)
         if shadows_module:
             name = f"{i}_"
         # A fresh name must not be one of the model's own argument names either: the
